@@ -454,7 +454,7 @@ fn run_bits(ctx: &mut Ctx, prop: &str, gen: &BitGen) {
 
 fn grid_lengths(th: bool) -> Vec<usize> {
     let mut v = vec![0usize, 1, 255, 256, 257];
-    let kmax = if th { 22 } else { 17 };
+    let kmax = if th { 22 } else { 18 };
     for k in 10..=kmax {
         v.extend([(1usize << k) - 1, 1 << k, (1 << k) + 1]);
         if k % 3 == 0 {
